@@ -2054,10 +2054,11 @@ static bool ts_query__analyze_patterns(TSQuery *self, unsigned *error_offset) {
 
   // An anchored step has to match the very next node (or the first child). The analysis does
   // not model extras, which can occur in front of any node, so such a step can always fail.
+  // Neither does it know where ERROR nodes occur: a step for one can always fail too.
   for (unsigned i = 0; i < self->steps.size; i++) {
     QueryStep *step = array_get(&self->steps, i);
     if (
-      step->is_immediate &&
+      (step->is_immediate || step->symbol == ts_builtin_sym_error) &&
       step->depth != PATTERN_DONE_MARKER &&
       step->depth > 0 &&
       !step->is_dead_end &&
